@@ -6,39 +6,44 @@
    (foreign content identical, convergence, minimality, no unexplained failure) decide.        *)
 EXTENDS TraceLib
 
-VARIABLES cfg, desired, kernel, belief, phase, known
+VARIABLES cfg, desired, kernel, kmaps, belief, phase, known
 
 \* chain names Felix owns by name: the configured (historic) prefixes cali-, califw-, felix-, ...
 \* instantiated over the name universe of the drivers
 TOurChains == {"cali-a", "cali-b", "cali-c", "cali-old", "felix-old", "califw-x"}
 P == INSTANCE RTable WITH OurChains <- TOurChains
-vars == <<cfg, desired, kernel, belief, phase, known>>
+vars == <<cfg, desired, kernel, kmaps, belief, phase, known>>
 
 Bodies(rs) == [i \in 1..Len(rs) |-> [id |-> rs[i].id, tgt |-> rs[i].tgt]]
+\* verdict maps are logged as name |-> array of {k, tgt}
+MS(a) == { [k |-> a[i].k, tgt |-> a[i].tgt] : i \in 1..Len(a) }
+KM(j) == [n \in DOMAIN j |-> MS(j[n])]
 TCfg(c) == [mode |-> c.mode, ownsAll |-> c.ownsAll, kchains |-> SeqToSet(c.kchains)]
 
 TInit == /\ l = 1
          /\ cfg = [mode |-> "insert", ownsAll |-> FALSE, kchains |-> {}]
-         /\ desired = [chains |-> <<>>, force |-> {}, ins |-> <<>>, app |-> <<>>]
-         /\ kernel = <<>>
+         /\ desired = [chains |-> <<>>, force |-> {}, maps |-> <<>>, ins |-> <<>>, app |-> <<>>]
+         /\ kernel = <<>> /\ kmaps = <<>>
          /\ belief = [stale |-> TRUE, due |-> TRUE]
          /\ phase = [inApply |-> FALSE, readFailed |-> FALSE, envFail |-> FALSE, notified |-> FALSE, consistent |-> TRUE]
          /\ known = {}
 
-TReset       == IsEvent("reset") /\ P!Reset(TCfg(Cur.cfg), Cur.kernel)
+TReset       == IsEvent("reset") /\ P!ResetM(TCfg(Cur.cfg), Cur.kernel, KM(Cur.maps))
 TSetChain    == IsEvent("set_chain") /\ P!SetChain(Cur.name, Bodies(Cur.rules), Cur.force)
 TRemoveChain == IsEvent("remove_chain") /\ P!RemoveChain(Cur.name)
 TSetIns      == IsEvent("set_ins") /\ P!SetIns(Cur.chain, Bodies(Cur.rules))
 TSetApp      == IsEvent("set_app") /\ P!SetApp(Cur.chain, Bodies(Cur.rules))
-TEdit        == IsEvent("edit") /\ P!ExternalEdit(Cur.kernel)
+TEdit        == IsEvent("edit") /\ P!ExternalEditM(Cur.kernel, KM(Cur.maps))
+TSetMap      == IsEvent("set_map") /\ P!SetMap(Cur.name, MS(Cur.members))
+TRemoveMap   == IsEvent("remove_map") /\ P!RemoveMap(Cur.name)
 TTick        == IsEvent("tick") /\ P!Tick
 TRestart     == IsEvent("restart") /\ P!Restart
 TApplyBegin  == IsEvent("apply_begin") /\ P!ApplyBegin
 TRead        == IsEvent("read") /\ P!Read(Cur.ok)
-TWrite       == IsEvent("write") /\ P!Write(Cur.ok, Cur.injected, Cur.kernel, SeqToSet(Cur.touched))
+TWrite       == IsEvent("write") /\ P!WriteM(Cur.ok, Cur.injected, Cur.kernel, KM(Cur.maps), SeqToSet(Cur.touched))
 TApplyEnd    == IsEvent("apply_end") /\ P!ApplyEnd(Cur.ok)
 
-TNext == TReset \/ TSetChain \/ TRemoveChain \/ TSetIns \/ TSetApp \/ TEdit \/ TTick \/ TRestart
+TNext == TReset \/ TSetMap \/ TRemoveMap \/ TSetChain \/ TRemoveChain \/ TSetIns \/ TSetApp \/ TEdit \/ TTick \/ TRestart
          \/ TApplyBegin \/ TRead \/ TWrite \/ TApplyEnd
 TSpec == TInit /\ [][TNext]_<<vars, l>>
 =============================================================================
